@@ -301,7 +301,7 @@ func runC07(c *Ctx) {
 						for _, ps := range paths {
 							iPub, iRead := -1, -1
 							for i, e := range ps.Events {
-								if e.Kind == "call" && e.Fn == publisher {
+								if e.Kind == "call" && (e.Fn == publisher || mustCall(p, e.Fn, publisher, 0)) {
 									iPub = i
 								}
 								if e.Kind == "call" && e.Fn == settle && iRead < 0 {
@@ -820,4 +820,32 @@ func funcArgEngineMethods(fn *ssa.Function) []string {
 		}
 	}
 	return sortedSet(set)
+}
+
+// mustCall: every returning path of f calls target, directly or through a function that must call
+// it (a wrapper keeps the obligation of what it wraps).
+func mustCall(p *Prog, f, target *ssa.Function, depth int) bool {
+	if f == nil || f.Blocks == nil || depth > 3 || !inModule(f) {
+		return false
+	}
+	s := newSumm(p, 0)
+	paths, cut := s.Function(f)
+	if cut != "" || len(paths) == 0 {
+		return false
+	}
+	for _, ps := range paths {
+		if ps.End != "return" {
+			continue
+		}
+		ok := false
+		for _, e := range ps.Events {
+			if e.Kind == "call" && e.Fn != nil && (e.Fn == target || mustCall(p, e.Fn, target, depth+1)) {
+				ok = true
+			}
+		}
+		if !ok {
+			return false
+		}
+	}
+	return true
 }
